@@ -28,16 +28,26 @@
 (* dependent_required is not counted among the invalid fields.             *)
 (* Deviation "aliasgate" reproduces the gating of the pinned tree on       *)
 (* field_errors keyed by ALIAS while dependencies are NAMES.               *)
+(*                                                                         *)
+(* case.ext: validators that are NOT bound to the class -- given through   *)
+(* field metadata of an enclosing object, through Annotated[K, validators] *)
+(* or through deserialize(..., validators=[...]) (case.extmode says which).*)
+(* They have no dependencies: they validate the built object as a whole,   *)
+(* hence run (all of them, in order) iff the object was built without any  *)
+(* error, class validators included (phase "external").  Deviation         *)
+(* "extdropped" reproduces the pinned tree, where such validators went     *)
+(* through the dependency gate of ObjectMethod and therefore never ran.    *)
 (***************************************************************************)
 EXTENDS Naturals, Sequences, FiniteSets, TLC
 
 CONSTANTS MaxF, MaxV,      \* bounds on fields / validators of a case
           Rich,            \* BOOLEAN: full option sets (FALSE: the reduced sets of the quick tier)
           StSet,           \* statuses a field may take in the datum (subset of absent/valid/invalid)
+          ExtOn,           \* BOOLEAN: cases with validators not bound to the class (case.ext)
           Deviations
 
 VARIABLES case,       \* the case under construction, then fixed
-          phase,      \* "build" | "fields" | "gate" | "validate" | "done"
+          phase,      \* "build" | "fields" | "gate" | "validate" | "external" | "done"
           fi,         \* index of the next field to deserialize
           provided,   \* names of the fields deserialized without error (values.keys())
           ferr,       \* names of the fields with a structural error
@@ -50,6 +60,8 @@ vars == <<case, phase, fi, provided, ferr, pending, errs, ran, constructed>>
 NamePool == <<"a", "b", "c", "d">>
 Upper(n) == CASE n = "a" -> "A" [] n = "b" -> "B" [] n = "c" -> "C" [] n = "d" -> "D"
 VNames   == <<"v1", "v2", "v3", "v4">>
+XNames   == <<"x1", "x2">>
+ExtModes == {"arg", "annotated", "field"}
 
 Fields == case.fields
 Vals   == case.vals
@@ -78,7 +90,7 @@ ValErr(v) ==
 
 ---------------------------------------------------------------------------
 \* ---- construction of the case
-Init == /\ case = [fields |-> <<>>, vals |-> <<>>, depreq |-> FALSE]
+Init == /\ case = [fields |-> <<>>, vals |-> <<>>, depreq |-> FALSE, ext |-> <<>>, extmode |-> "arg"]
         /\ phase = "build" /\ fi = 1 /\ provided = {} /\ ferr = {}
         /\ pending = <<>> /\ errs = {} /\ ran = <<>> /\ constructed = 0
 
@@ -112,12 +124,23 @@ AddVal ==
                                                      disc |-> DiscOf(opt, fld), style |-> style, out |-> out])]
   /\ UNCHANGED <<phase, fi, provided, ferr, pending, errs, ran, constructed>>
 
+\* an unbound validator has the shape of a class validator without dependencies
+ExtVal(i, style, out) == [name |-> XNames[i], deps |-> {}, fld |-> "", disc |-> {}, style |-> style, out |-> out]
+ExtOptions ==
+  IF ~ExtOn THEN {<<>>}
+  ELSE IF Rich THEN {<<>>} \cup {<<ExtVal(1, st, o)>> : st \in {"raise", "yield"}, o \in {"pass", "fail"}}
+                      \cup {<<ExtVal(1, s1, o1), ExtVal(2, s2, o2)>> :
+                               s1 \in {"raise", "yield"}, s2 \in {"raise", "yield"}, o1 \in {"pass", "fail"}, o2 \in {"pass", "fail"}}
+  ELSE {<<>>, <<ExtVal(1, "raise", "pass")>>, <<ExtVal(1, "yield", "fail")>>,
+        <<ExtVal(1, "raise", "fail"), ExtVal(2, "yield", "fail")>>, <<ExtVal(1, "yield", "pass"), ExtVal(2, "raise", "fail")>>}
+
 StartCase == /\ phase = "build" /\ case.fields # <<>> /\ case.vals # <<>>
              /\ phase' = "fields"
              \* dependent_required({a: [b]}) needs two optional fields
-             /\ \E dr \in BOOLEAN :
+             /\ \E dr \in BOOLEAN, ex \in ExtOptions, em \in ExtModes :
                    /\ dr => (Len(case.fields) >= 2 /\ ~case.fields[1].req /\ ~case.fields[2].req)
-                   /\ case' = [case EXCEPT !.depreq = dr]
+                   /\ (ex = <<>> => em = "arg")
+                   /\ case' = [case EXCEPT !.depreq = dr, !.ext = ex, !.extmode = em]
              /\ UNCHANGED <<fi, provided, ferr, pending, errs, ran, constructed>>
 
 ---------------------------------------------------------------------------
@@ -150,7 +173,7 @@ Gate ==
 
 \* one iteration of validate(): run the head validator
 Run ==
-  /\ phase = "validate" /\ pending # <<>>
+  /\ phase \in {"validate", "external"} /\ pending # <<>>
   /\ LET v == Head(pending) IN
        /\ ran' = Append(ran, v.name)
        /\ IF v.out = "pass"
@@ -162,11 +185,17 @@ Run ==
                                      LAMBDA w : w.deps \cap v.disc = {})
   /\ UNCHANGED <<case, phase, fi, provided, ferr, constructed>>
 
+\* ValidatorMethod around the object's method: validate(built object, unbound validators)
+GoesExt == case.ext # <<>> /\ errs = {} /\ "extdropped" \notin Deviations
 Finish == /\ phase = "validate" /\ pending = <<>>
-          /\ phase' = "done"
-          /\ UNCHANGED <<case, fi, provided, ferr, pending, errs, ran, constructed>>
+          /\ IF GoesExt THEN phase' = "external" /\ pending' = case.ext
+                        ELSE phase' = "done" /\ UNCHANGED pending
+          /\ UNCHANGED <<case, fi, provided, ferr, errs, ran, constructed>>
+FinishExt == /\ phase = "external" /\ pending = <<>>
+             /\ phase' = "done"
+             /\ UNCHANGED <<case, fi, provided, ferr, pending, errs, ran, constructed>>
 
-Steps == DeserField \/ EndFields \/ Gate \/ Run \/ Finish
+Steps == DeserField \/ EndFields \/ Gate \/ Run \/ Finish \/ FinishExt
 Next == AddField \/ AddVal \/ StartCase \/ Steps \/ (phase = "done" /\ UNCHANGED vars)
 Spec == Init /\ [][Next]_vars
 FairSpec == Spec /\ WF_vars(Steps)
@@ -191,9 +220,16 @@ RefRun(i, discarded, acc) ==
                    /\ v.deps \cap discarded = {}        \* none discarded by an earlier failing validator
        IN IF ~runs THEN RefRun(i + 1, discarded, acc)
           ELSE RefRun(i + 1, IF v.out = "fail" THEN discarded \cup v.disc ELSE discarded, Append(acc, v.name))
-RefRan  == RefRun(1, {}, <<>>)
-RefErrs == AllStructErr
-           \cup UNION {ValErr(ValByName(RefRan[i])) : i \in {j \in DOMAIN RefRan : ValByName(RefRan[j]).out = "fail"}}
+RefClassRan  == RefRun(1, {}, <<>>)
+RefClassErrs == AllStructErr
+                \cup UNION {ValErr(ValByName(RefClassRan[i])) :
+                              i \in {j \in DOMAIN RefClassRan : ValByName(RefClassRan[j]).out = "fail"}}
+\* unbound validators see the finished object: all of them run iff it was built without error
+RefExtRuns == RefClassErrs = {}
+RefRan  == RefClassRan \o (IF RefExtRuns THEN [i \in DOMAIN case.ext |-> case.ext[i].name] ELSE <<>>)
+RefErrs == RefClassErrs
+           \cup (IF RefExtRuns THEN UNION {ValErr(case.ext[i]) : i \in {j \in DOMAIN case.ext : case.ext[j].out = "fail"}}
+                  ELSE {})
 
 \* ---- what TLC decides
 RunIff     == phase = "done" => ran = RefRan            \* exactly the runnable validators, in order
